@@ -245,6 +245,21 @@ pub fn run_rows(obs: &mut Obs, c: &Case, pred: &dyn Pred, spec: &Spec, qr: case:
         return None;
     }
 
+    // ---- repeatability: the same call on the same model and the same array must give the same bits again (the
+    // prediction depends on the sample and the model only — not on call history, hash order or scratch state)
+    for round in 0..2 {
+        for (i, r) in rows.iter().enumerate() {
+            let x1 = case::to_array(std::slice::from_ref(r), p);
+            let out = obs.call("predict(single row, repeated)", || pred.one(&x1))?;
+            let same = out.nrows() == 1 && out.rows[0].len() == single[i].len() && out.rows[0].iter().zip(&single[i]).all(|(a, b)| a.to_bits() == b.to_bits());
+            if !obs.ensure(same, "repeat:value", || {
+                format!("predicting query row {i} alone a second time (repetition {}) returned {:?}, the first call returned {:?} for the row {:?}", round + 1, out.rows.first(), single[i], r)
+            }) {
+                return None;
+            }
+        }
+    }
+
     // ---- the five forms on the standard batch, and batch versus single rows
     let base = obs.call("predict(standard batch)", || pred.forms_owned(&q, c_junk))?;
     obs.class("form_owned_x5");
